@@ -43,6 +43,10 @@ def mk_id(hs, spec):
         return spec['i']
     if 'f' in spec:
         return spec['f']
+    if 'uri' in spec:
+        return hs.Uri(spec['uri'])
+    if 'bin' in spec:
+        return hs.Bin(spec['bin'])
     if 'ref' in spec:
         return hs.Ref(spec['ref'])
     if 'refv' in spec:
@@ -90,7 +94,8 @@ class GridMachine(BaseCheck):
             else:
                 idspec = k.choice([{'s': 'r%d' % j}, {'i': j}, {'i': j // 2}, {'ref': 'r%d' % j},
                                    {'ref': 'r%d' % (j // 2)}, {'refv': 'r%d' % j}, {'s': '%d' % j}, None,
-                                   {'f': j + 0.5}, {'f': float(j // 2)}, {'s': ''}])
+                                   {'f': j + 0.5}, {'f': float(j // 2)}, {'s': ''},
+                                   {'uri': 'http://x/%d' % j}, {'bin': 'text/r%d' % j}, {'uri': 'r%d' % j}])
             rows.append({'id': idspec, 'n': j if k.random() < 0.8 else 0, 'mk': k.random() < 0.5})
         if cls != 'unique-str' and k.random() < 0.5:
             rows[-1] = dict(rows[0])   # equal but not identical
